@@ -13,7 +13,7 @@ EXPLANATION = ('The cross-width transcoders (UTF-8 decode to 16/32 bit, UTF-8 en
 ASSUMPTIONS = ['the first sequence of the input is representative: the loops are interpreted for their first iteration from an arbitrary start state',
                'raw-pointer instantiations stand for all iterator types (iterator adapters are checked by C11 R11.1)']
 TRUSTED = ['clang 14 AST + constant evaluation', 'bsfacts', 'bsv/dtab.py + bsv/interval.py', 'spec/unicode_spec.py']
-UNITS = ['w_convert.cpp', 'csv_readers.cpp', 'csv_writers.cpp', 'w_archives.cpp']
+UNITS = ['w_convert.cpp', 'csv_readers.cpp', 'csv_writers.cpp', 'csv_archive.cpp', 'w_archives.cpp']
 
 
 def run(prog, rep):
@@ -38,6 +38,7 @@ def run(prog, rep):
     # or reported, never left in the window (shared obligation with C13 R13.7 / C02 R2.9)
     from rules import encoded_reader
     encoded_reader.check(prog, rep, ids={'R13.7': 'R12.9'})
+    check_archive_stream_policy(prog, rep, 'R12.10')
 
 
 def check_policy_forwarding(prog, rep, rule):
@@ -268,3 +269,80 @@ def check_writer_result(prog, rep, rule):
             rep.ok(rule, 'Write|%s' % f.id[-120:])
     if n < 4:
         raise AnalysisBroken('%s: fewer than four transcoding instantiations of CEncodedStreamWriter::Write found (%d)' % (rule, n))
+
+
+def check_archive_stream_policy(prog, rep, rule):
+    """The CSV archive reads and writes encoded streams through CEncodedStreamReader / CEncodedStreamWriter members of its reader / writer classes.
+    SerializationOptions::utfEncodingErrorPolicy reaches them only if (a) each construction of such a member passes a policy explicitly - the
+    constructor default is Skip, the documented default of the options is ThrowError - and (b) each construction of the owning reader / writer in
+    the archive passes an argument for its policy parameter."""
+    POLICY = 'BitSerializer::Convert::Utf::UtfEncodingErrorPolicy'
+    rep.rule(rule, 'CSV archive: every CEncodedStreamReader / CEncodedStreamWriter constructed in src/csv gets its error policy as an explicit argument, and every '
+                   'construction of the owning CSV reader / writer by the archive supplies that policy parameter (the constructor defaults are Skip; the '
+                   'option\'s default is ThrowError)', floor=4)
+    owners = {}
+    n = 0
+    for f in sorted(prog.funcs.values(), key=lambda g: g.id):
+        if f.body is None or not f.relfile.startswith('src/csv/'):
+            continue
+        for c in f.walk():
+            if c['k'] not in ('CXXConstructExpr', 'CXXTemporaryObjectExpr'):
+                continue
+            t = f.type(c)
+            if 'CEncodedStreamReader' not in t and 'CEncodedStreamWriter' not in t:
+                continue
+            ctor = f.callee(c) if hasattr(f, 'callee') else None
+            g = prog.funcs.get(ctor['id']) if ctor is not None and ctor.get('id') in prog.funcs else None
+            args = [a for a in c.get('c', []) if a]
+            cls = t.split('<')[0].split('::')[-1]
+            site = '%s constructs %s' % (f.pq if f.cls else f.name, cls)
+            n += 1
+            rep.touch(f)
+            if f.cls:
+                owners[f.cls] = f
+            idx = None
+            if g is not None:
+                for i, p in enumerate(g.params):
+                    if 't' in p and g.type(p).replace('const ', '').strip() == POLICY:
+                        idx = i
+            if idx is None:
+                # constructor not resolved: decide on the argument types
+                explicit = any(a['k'] != 'CXXDefaultArgExpr' and f.type(a).replace('const ', '').strip() == POLICY for a in args)
+            else:
+                explicit = idx < len(args) and args[idx]['k'] != 'CXXDefaultArgExpr'
+            if explicit:
+                rep.ok(rule, site, sample={'site': f.loc(c), 'member': cls})
+            else:
+                rep.finding(rule, site + '|default policy', f.loc(c), '%s without an error policy argument: the stream is decoded / encoded with the constructor default '
+                            '(Skip), whatever SerializationOptions::utfEncodingErrorPolicy says - an ill-formed sequence is replaced by the mark although '
+                            'ThrowError was asked for' % site, func=f.id)
+    if n < 2:
+        raise AnalysisBroken('%s: expected the encoded stream reader and writer of the CSV archive, found %d construction(s)' % (rule, n))
+    # (b) the archive's constructions of the owners
+    m = 0
+    for f in sorted(prog.funcs.values(), key=lambda g: g.id):
+        if f.body is None or not f.relfile.startswith('src/csv/csv_archive'):
+            continue
+        for c in f.walk():
+            if c['k'] != 'CallExpr':
+                continue
+            cal = f.callee(c) or {}
+            if cal.get('n') != 'make_unique':
+                continue
+            t = f.type(c)
+            for owner, octor in owners.items():
+                short = owner.split('::')[-1]
+                if short + ',' not in t.replace(' ', '') and short + '>' not in t.replace(' ', ''):
+                    continue
+                idx = [i for i, p in enumerate(octor.params) if 't' in p and octor.type(p).replace('const ', '').strip() == POLICY]
+                args = [a for a in c.get('c', [])[1:] if a]
+                m += 1
+                rep.touch(f)
+                site = '%s -> make_unique<%s>' % (f.pq if f.cls else f.name, short)
+                if idx and idx[0] < len(args):
+                    rep.ok(rule, site, sample={'site': f.loc(c), 'policy_argument_index': idx[0]})
+                else:
+                    rep.finding(rule, site + '|policy not supplied', f.loc(c), '%s passes %d argument(s); the policy parameter of %s (position %s) is left to its '
+                                'default Skip' % (site, len(args), short, idx[0] + 1 if idx else 'none'), func=f.id)
+    if m < 2:
+        raise AnalysisBroken('%s: expected the archive to construct its stream reader and writer through make_unique, found %d site(s)' % (rule, m))
